@@ -260,7 +260,12 @@ func (t *TabularGraph) GetEdge(key string, load bool) *gdbi.Edge {
 								}
 							}
 						}
-						return out
+						if out != nil {
+							return out
+						}
+						// no link row of this mapping matched: another mapping with the
+						// same label and compatible prefixes may still hold the edge
+						continue
 					}
 					log.Errorf("Row Error: %s", err)
 				}
